@@ -48,6 +48,18 @@ def run_property(P, tier, seed, replay=None):
          nontrivial(case) -> bool, describe_sample(case, impl) -> json-able, level_text..."""
     rep = Report(P.prop, tier, seed)
     rng = random.Random(seed)
+    if replay:
+        rep.is_replay = True
+        # a replay line whose generating case cannot be recovered carries no meta: describe it by its text
+        def _guard(f, default):
+            def g(*a):
+                try: return f(*a)
+                except Exception: return default(*a)
+            return g
+        P.show = _guard(P.show, lambda c: c.line[:300])
+        P.classify = _guard(P.classify, lambda c, i: i.split(":", 1)[0][:10])
+        P.nontrivial = _guard(P.nontrivial, lambda c, i: True)
+        P.known = _guard(P.known, lambda c, i, d: None)
     try:
         b = build.ensure_built(release=getattr(P, "needs_release", False))
     except build.BuildError as e:
@@ -73,7 +85,27 @@ def run_property(P, tier, seed, replay=None):
     # ---------- 2. correspondence + oracle
     if replay:
         lines = parse_replay(replay)
-        cases = [Case(l.split(" ", 1)[0], l, "replay") for l in lines]
+        # the oracle of most properties needs the generator's own description of the case (meta): regenerate the run the
+        # replay file came from (its seed is in the header; quick tier first, then thorough) and pick the cases by their line
+        rseed = seed
+        for l in open(replay):
+            if l.startswith("# seed:"):
+                try: rseed = int(l.split(":", 1)[1].strip())
+                except ValueError: pass
+        want = {l.split(" ", 1)[1] if " " in l else l for l in lines}
+        found = {}
+        for t in ("quick", "thorough"):
+            if len(found) == len(want): break
+            try:
+                for c in P.generate(t, random.Random(rseed)):
+                    body = c.line.split(" ", 1)[1] if " " in c.line else c.line
+                    if body in want and body not in found: found[body] = c
+            except Exception:
+                pass
+        cases = []
+        for l in lines:
+            body = l.split(" ", 1)[1] if " " in l else l
+            cases.append(found[body] if body in found else Case(l.split(" ", 1)[0], l, "replay"))
     else:
         cases = []
         corpus = load_corpus(P.prop)
@@ -94,7 +126,11 @@ def run_property(P, tier, seed, replay=None):
         hist[P.classify(c, i)] += 1
         if P.nontrivial(c, i):
             distinct.add(c.line.split(" ", 1)[1])
-        verdict, detail = P.oracle(c, i)
+        try:
+            verdict, detail = P.oracle(c, i)
+        except Exception as e:
+            if not replay: raise
+            verdict, detail = "unknown", "oracle not applicable to a bare replay line (%s)" % type(e).__name__
         k = None
         if verdict == "violates":
             k = P.known(c, i, detail)
